@@ -73,7 +73,7 @@ theorem measure_step {c : Cfg} {s s' : State} {e : Ev} (hs : step c s e = some s
     omega
   | cbReturn n r =>
     obtain ⟨hn, hp, hr⟩ := step_cbReturn.mp hs
-    rcases hr with ⟨_, rfl⟩ | ⟨_, rfl⟩ | ⟨_, _, rfl⟩
+    rcases hr with ⟨_, rfl⟩ | ⟨_, rfl⟩ | ⟨_, _, rfl⟩ | ⟨_, _, rfl⟩
     · have := phaseSum_set_lt (c := c) (s := s) (n := n) (v := .returned true) _ hn rfl (by simp [hp, phaseWeight])
       simp only [measure, phaseSum, pendSum] at this ⊢
       omega
@@ -81,6 +81,9 @@ theorem measure_step {c : Cfg} {s s' : State} {e : Ev} (hs : step c s e = some s
       simp only [measure, phaseSum, pendSum] at this ⊢
       omega
     · have := phaseSum_set_lt (c := c) (s := s) (n := n) (v := .aborted) _ hn rfl (by simp [hp, phaseWeight])
+      simp only [measure, phaseSum, pendSum] at this ⊢
+      omega
+    · have := phaseSum_set_lt (c := c) (s := s) (n := n) (v := .returned false) _ hn rfl (by simp [hp, phaseWeight])
       simp only [measure, phaseSum, pendSum] at this ⊢
       omega
   | complete n =>
